@@ -33,6 +33,7 @@ GenNext ==
     \/ MidIntake /\ (GHeadChange \/ GChainChange)
     \/ Quiet /\ \E tx \in DOMAIN rcpt : \E i \in 1..Len(txs[tx]) : PushLog(tx, i, IsMsg(txs[tx][i])) /\ Bump("push") /\ Rec("PushLog", [tx |-> tx, i |-> i])
     \/ lq # Nil /\ (HeldIntake => hs = Nil /\ Len(hq) = 0) /\ L_BlockTime(lq.e.blk) /\ UNCHANGED cnt /\ W("L_BlockTime")
+    \/ Quiet /\ RunRestart(Tag) /\ Bump("restart") /\ Rec("Restart", [via |-> "any"])
     \/ L_Insert /\ UNCHANGED cnt /\ W("L_Insert")
     \/ rs = Nil /\ IntakeOK /\ (HeadFor(Tag) > pl \/ Fails("poll")) /\ Len(hq) < 2 /\ B_Poll(Tag) /\ UNCHANGED cnt /\ W("B_Poll")
     \/ rs = Nil /\ IntakeOK /\ Len(hq) > 0 /\ H_Head(Head(hq)) /\ UNCHANGED cnt /\ W("H_Head")
